@@ -308,6 +308,24 @@ func init() {
 		"verifIte64": func(m *Machine, _ *frame, _ token.Pos, _ *ssa.Function, a []Value) Value {
 			return m.F.Ite(a[0].(*sym.Term), a[1].(*sym.Term), a[2].(*sym.Term))
 		},
+		"verifIteF": func(m *Machine, _ *frame, _ token.Pos, _ *ssa.Function, a []Value) Value {
+			c := a[0].(*sym.Term)
+			x, y := a[1].(*FloatV), a[2].(*FloatV)
+			if c.IsConst() {
+				if c.C == 1 {
+					return x
+				}
+				return y
+			}
+			if m.floatMode() == "int53" {
+				xi, yi := m.toI53(x), m.toI53(y)
+				return &FloatV{I: m.F.Ite(c, xi.I, yi.I), NaN: m.F.Ite(c, m.nanOf(xi), m.nanOf(yi))}
+			}
+			if x.Bits != nil && y.Bits != nil {
+				return &FloatV{Bits: m.F.Ite(c, x.Bits, y.Bits)}
+			}
+			return &FloatV{FP: m.F.Ite(c, m.asFP(x), m.asFP(y))}
+		},
 		"verifYield": func(m *Machine, _ *frame, _ token.Pos, _ *ssa.Function, a []Value) Value {
 			m.schedPoint("yield")
 			return nil
